@@ -421,6 +421,9 @@ func c16Usability(rp *runner.Report) (runs int64) {
 		for i := 0; i < len(bl); i++ {
 			for j := i; j < len(bl); j++ {
 				for k := j; k < len(bl); k++ {
+					if bl[i] == bl[j] || bl[j] == bl[k] {
+						continue // the same component can not be added to the same entity twice
+					}
 					scheds = append(scheds, []c16dev{{bl[i], 0}, {bl[j], 1}, {bl[k], 1}})
 				}
 			}
